@@ -145,6 +145,8 @@ impl Finding {
 #[derive(Default)]
 pub struct Pins {
     pub present: bool,
+    /// a table borrowed from another tier: never strict
+    pub overlay: bool,
     pub tables: BTreeMap<String, (bool, std::collections::HashMap<u64, u64>)>,
 }
 
@@ -154,10 +156,20 @@ pub fn pin_key(f: &Failure) -> u64 {
 
 pub fn load_pins(property: &str, tier: Tier) -> Pins {
     let p = verif_dir().join("known_witnesses").join(format!("{property}-{}.txt", tier.name()));
-    let Ok(txt) = std::fs::read_to_string(&p) else {
-        return Pins::default();
+    let mut overlay = false;
+    let txt = match std::fs::read_to_string(&p) {
+        Ok(t) => t,
+        Err(_) => {
+            // no table for this tier: the quick tier's table still pins the cases both tiers share
+            // (as a non-strict overlay: unknown cases and findings fall back to the rules)
+            overlay = true;
+            match std::fs::read_to_string(verif_dir().join("known_witnesses").join(format!("{property}-quick.txt"))) {
+                Ok(t) if tier != Tier::Quick => t,
+                _ => return Pins::default(),
+            }
+        }
     };
-    let mut pins = Pins { present: true, tables: BTreeMap::new() };
+    let mut pins = Pins { present: true, overlay, tables: BTreeMap::new() };
     let mut cur: Option<String> = None;
     for l in txt.lines() {
         if let Some(rest) = l.strip_prefix("# finding ") {
@@ -182,8 +194,9 @@ impl Pins {
             return Ok(());
         }
         let Some((strict, map)) = self.tables.get(id) else {
-            return Err("this finding did not occur when the witness table was written");
+            return if self.overlay { Ok(()) } else { Err("this finding did not occur when the witness table was written") };
         };
+        let strict = &(*strict && !self.overlay);
         match map.get(&pin_key(f)) {
             Some(0) => Ok(()),
             Some(o) if *o == hash_str(&f.observed) => Ok(()),
